@@ -70,7 +70,8 @@ class C06(Prop):
         sp = st.fixed_dictionaries({
             "order": st.integers(0, 30), "quote": st.booleans(), "omit_default": st.booleans(),
             "semi_l": st.sampled_from(["", " ", "\t"]), "semi_r": st.sampled_from(["", " ", "  "]),
-            "eq_l": st.sampled_from(["", ""]), "eq_r": st.sampled_from(["", ""]),
+            # RFC 6455 takes its ABNF from RFC 2616: linear white space may surround "=" and ";"
+            "eq_l": st.sampled_from(["", "", " ", "\t"]), "eq_r": st.sampled_from(["", "", " "]),
         })
         sized = st.one_of(
             st.tuples(st.sampled_from(["rand", "rep"]), gen.weighted([
@@ -162,7 +163,12 @@ class C06(Prop):
         if "invalid" in case:
             return self.run_invalid(case)
         if "battery" in case:
-            case = {"cfg": case["cfg"], "spelling": {"order": case["battery"]}, "steps": self.BATTERY[case["battery"]],
+            cfg0 = case["cfg"]
+            presets = [{"order": 0}, {"order": 1, "quote": True}, {"order": 2, "eq_l": " ", "eq_r": " "},
+                       {"order": 7, "semi_l": " ", "semi_r": "", "eq_l": "\t"}, {"order": 3, "omit_default": True},
+                       {"order": 9, "quote": True, "eq_r": " ", "semi_r": "  "}]
+            spelling = presets[(cfg0["sb"] + cfg0["cb"] * 3 + case["battery"]) % len(presets)]
+            case = {"cfg": case["cfg"], "spelling": spelling, "steps": self.BATTERY[case["battery"]],
                     "negotiated": True, "damage": None, "seg": "whole"}
         cfg = case["cfg"]
         negotiated = case["negotiated"]
